@@ -13,10 +13,10 @@ go build ./... && echo "build: ok" || echo "build: FAILED"
 go test -vet=off -count=1 ./... 2>&1 | grep -v "no test files" | tail -3
 echo "--- demo with change (must fail)"
 cp $src/$demo $w/$demo
-(cd $w/$(dirname $demo) && go test -vet=off -count=1 -run 'TestSeedDemo' . 2>&1 | tail -4)
+(cd $w/$(dirname $demo) && go test -vet=off -count=1 -run '^TestSeedDemo$' . 2>&1 | tail -4)
 echo "--- demo without change (must pass)"
 git apply -R $src.patch
-(cd $w/$(dirname $demo) && go test -vet=off -count=1 -run 'TestSeedDemo' . 2>&1 | tail -2)
+(cd $w/$(dirname $demo) && go test -vet=off -count=1 -run '^TestSeedDemo$' . 2>&1 | tail -2)
 mkdir -p /verif/seeded/$id
 cp $src.patch /verif/seeded/$id/patch.diff
 cp $src/$demo /verif/seeded/$id/$(basename $demo).txt
